@@ -253,6 +253,7 @@ fn fam_boxed(ctx: &Ctx) {
                 cs.group();
                 let e = Out::v(&from_big(&((a + a) % p), n));
                 chk!(cs, "Boxed::double_mod", &e, Out::v(&bw(&xa.double_mod(&xp))));
+                chk!(cs, "Boxed::add_mod(a,a)", &e, Out::v(&bw(&xa.add_mod(&xa, &xp))));
                 if odd {
                     cs.group();
                     let h = if a.bit(0) { (a + p) >> 1 } else { a >> 1 };
